@@ -187,6 +187,7 @@ type x02World struct {
 	base, baseB        int
 	ticks              int
 	tfailed            map[int]bool
+	powner             map[int]int // proxy connection (by the model's index) -> local connection whose bytes it carries
 }
 
 // goroutines of the current synctest bubble (exact: runtime.NumGoroutine also counts the process's transient
@@ -240,7 +241,7 @@ func (r *x02Run) drift(step int, format string, a ...any) {
 func x02Setup(b *x02Behaviour) *x02World {
 	w := &x02World{b: b, vn: kit.NewVNet(), localn: kit.NewVNet(), proxyn: kit.NewVNet(),
 		papp: map[int]net.Conn{}, plink: map[int]*kit.VLink{}, pclosed: map[int]bool{}, pwrote: map[int]int{},
-		gotUp: map[int][]int{}, gotDn: map[int][]int{}, eofUp: map[int]bool{}, eofDn: map[int]bool{}, tfailed: map[int]bool{}}
+		gotUp: map[int][]int{}, gotDn: map[int][]int{}, eofUp: map[int]bool{}, eofDn: map[int]bool{}, tfailed: map[int]bool{}, powner: map[int]int{}}
 	pv, pub, _ := ecdh.GenerateKey(rand.Reader)
 	uid := []byte("verif-x02-uid-16")
 	copy(w.uid[:], uid)
@@ -436,7 +437,21 @@ func (r *x02Run) appRead(step int, local bool, i int) (units int, eof bool) {
 		got, wrote = w.gotDn[i], w.pwrote[i]
 	}
 	for n := range conns {
-		if conns[n] != i {
+		if !local {
+			// a proxy connection belongs to the local connection whose bytes arrive on it first (a statement about the code
+			// alone); that this is the connection the model expects there is a matter of drift
+			if w.powner[i] == 0 {
+				w.powner[i] = conns[n]
+			}
+			if conns[n] != w.powner[i] {
+				r.violate(step, "relay-crosstalk", "a proxy connection that carries the bytes of local connection %d received unit %d of local connection %d", w.powner[i], ks[n], conns[n])
+				return 0, false
+			}
+			if conns[n] != i {
+				r.drift(step, "the model's proxy connection of %d carries the bytes of local connection %d", i, conns[n])
+				return 0, false
+			}
+		} else if conns[n] != i {
 			r.violate(step, "relay-crosstalk", "%s application of connection %d received unit %d of connection %d", who, i, ks[n], conns[n])
 			return 0, false
 		}
